@@ -64,6 +64,8 @@ def main():
         preps = []
         for wt in args:
             sd = os.path.join(wt, 'seed')
+            if not os.path.isdir(sd):
+                sd = wt          # a kept set under /verif/benign/<id>/
             for f in sorted(os.listdir(sd)):
                 if f.startswith('patch') and f.endswith('.diff'):
                     preps.append((wt, os.path.join(sd, f)))
